@@ -18,6 +18,16 @@ PARTIAL = ('the clause "a configuration that would share a set between logical f
 
 
 def run(ctx):
+    # every number of logical files 1..9 (thorough: ..16), each with the minimum of objects, with 0 or 2 extra objects: writable
+    # whatever the count (the progress bar's record count used to leave the file headers out and refuse e.g. exactly five)
+    for n_lf in range(1, 10 if ctx.tier == 'quick' else 17):
+        for extra in (0, 2):
+            prog = apistream.gen_many_lf(n_lf, rows=1 + n_lf % 3, extra=extra)
+            r = apistream.run_one(ctx, prog, 'K-api-many-lf')
+            ctx.count('K-many-lf', key=(n_lf, extra))
+            if r['outs'][-1][0] != 'ok':
+                ctx.violation('valid-specification-with-%d-logical-files-refused' % n_lf,
+                              {'program': apistream.strip_private(prog), 'impl': list(r['outs'][-1])})
     rng = ctx.rng('progs')
     n = 60 if ctx.tier == 'quick' else 600
     nsame = 12 if ctx.tier == 'quick' else 120
